@@ -24,7 +24,7 @@ type evalEnv struct {
 	vars  map[types.Object]Val
 	depth int
 	// ext lets a rule give meaning to calls the evaluator does not model.
-	ext func(f *Fn, call *ast.CallExpr, args []Val) (Val, bool)
+	ext func(f *Fn, call *ast.CallExpr, recv Val, args []Val) (Val, bool)
 }
 
 type evalUndecided struct{ msg string }
@@ -35,7 +35,7 @@ type returned struct{ vals []Val }
 
 // EvalFn runs f's body with the given parameter values and returns its results.
 // An unsupported construct yields an error: the caller must treat that as "undecided".
-func (f *Fn) EvalFn(args []Val, ext func(f *Fn, call *ast.CallExpr, args []Val) (Val, bool)) (res []Val, err error) {
+func (f *Fn) EvalFn(args []Val, ext func(f *Fn, call *ast.CallExpr, recv Val, args []Val) (Val, bool)) (res []Val, err error) {
 	defer func() {
 		if r := recover(); r != nil {
 			if u, ok := r.(evalUndecided); ok {
@@ -393,7 +393,20 @@ func (e *evalEnv) expr(x ast.Expr) Val {
 			args = append(args, e.expr(a))
 		}
 		if e.ext != nil {
-			if v, ok := e.ext(e.f, x, args); ok {
+			var recv Val
+			if se, ok := ast.Unparen(x.Fun).(*ast.SelectorExpr); ok && e.f.Info.Selections[se] != nil {
+				func() {
+					defer func() {
+						if r := recover(); r != nil {
+							if _, ok := r.(evalUndecided); !ok {
+								panic(r)
+							}
+						}
+					}()
+					recv = e.expr(se.X)
+				}()
+			}
+			if v, ok := e.ext(e.f, x, recv, args); ok {
 				return v
 			}
 		}
